@@ -7,29 +7,23 @@ Open Scope N_scope.
 Notation MAX := MAX_WANTLIST_ENTRIES_PER_PEER.
 
 (* ---------------------------------------------------------------- process_wantlist *)
-Lemma full_yield_len Sz es : forall n l, full_yield Sz n es = Some l -> len l <= n.
-Proof.
-  induction es as [|e es IH]; intros n l; cbn [full_yield].
-  - intros [= <-]. rewrite len_nil. lia.
-  - destruct (n =? 0) eqn:En; [intros [= <-]; rewrite len_nil; lia|].
-    destruct (e_cancel e); [apply IH|].
-    destruct (cid_read_bytes Sz (e_block e)) as [c| |]; [|apply IH|discriminate].
-    destruct (full_yield Sz (n - 1) es) as [l'|] eqn:E; cbn; [|discriminate].
-    intros [= <-]. apply IH in E. rewrite len_cons. lia.
-Qed.
+Lemma add_capped_full l s : MAX <= len s -> add_capped l s = s.
+Proof. intros H. destruct l as [|c r]; cbn [add_capped]; [reflexivity|]. destruct (MAX <=? len s) eqn:E; [reflexivity|lia]. Qed.
 
-Lemma full_yield_firstn Sz es : forall n l,
-  full_yield Sz n es = Some l -> l = N_firstn n (entry_cids Sz false es).
+Lemma full_collect_spec Sz es : forall acc l,
+  full_collect Sz es acc = Some l -> NoDup acc -> len acc <= MAX ->
+  NoDup l /\ len l <= MAX /\ l = add_capped (entry_cids Sz false es) acc.
 Proof.
-  unfold N_firstn. induction es as [|e es IH]; intros n l; cbn [full_yield entry_cids].
-  - intros [= <-]. destruct (N.to_nat n); reflexivity.
-  - destruct (n =? 0) eqn:En.
-    + intros [= <-]. assert (n = 0) by lia. subst. reflexivity.
+  induction es as [|e es IH]; intros acc l; cbn [full_collect entry_cids].
+  - intros [= <-] Hnd Hlen. auto.
+  - destruct (MAX <=? len acc) eqn:Ecap.
+    + intros [= <-] Hnd Hlen. split; [assumption|]. split; [assumption|].
+      symmetry. apply add_capped_full. lia.
     + destruct (e_cancel e); cbn [Bool.eqb]; [apply IH|].
       destruct (cid_read_bytes Sz (e_block e)) as [c| |]; [|apply IH|discriminate].
-      destruct (full_yield Sz (n - 1) es) as [l'|] eqn:E; cbn [option_map]; [|discriminate].
-      intros [= <-]. apply IH in E. subst l'.
-      replace (N.to_nat n) with (Datatypes.S (N.to_nat (n - 1))) by lia. reflexivity.
+      intros Hrun Hnd Hlen. cbn [add_capped]. rewrite Ecap.
+      apply IH in Hrun; [assumption|apply cadd_NoDup; assumption|].
+      pose proof (cadd_len c acc). lia.
 Qed.
 
 Lemma upd_parse_cids Sz es : forall pes,
@@ -149,14 +143,13 @@ Lemma process_wantlist_spec Sz old w new adds rems :
   pw_ok old new adds rems /\ new = view_msg Sz w old.
 Proof.
   intros Hnd Hlen. unfold process_wantlist, view_msg. destruct (w_full w).
-  - destruct (full_yield Sz MAX (w_entries w)) as [l|] eqn:E; [|discriminate].
-    intros [= <- <- <-]. pose proof (full_yield_len _ _ _ _ E) as Hl.
-    apply full_yield_firstn in E. subst l. split; [|reflexivity].
-    set (new := cset_of_list _) in *.
-    assert (Hnn : NoDup new) by apply cset_of_list_NoDup.
+  - destruct (full_collect Sz (w_entries w) []) as [new0|] eqn:E; [|discriminate].
+    intros [= -> <- <-].
+    apply full_collect_spec in E; [|constructor|rewrite len_nil; unfold MAX; lia].
+    destruct E as (Hnn & Hl & Heq). split; [|exact Heq].
     constructor.
     + assumption.
-    + unfold new. etransitivity; [apply cset_of_list_len|assumption].
+    + assumption.
     + apply NoDup_filter. assumption.
     + apply NoDup_filter. assumption.
     + intros c. rewrite filter_In. tauto.
@@ -852,13 +845,12 @@ Proof.
     destruct (take size r4); discriminate.
 Qed.
 
-Lemma full_yield_no_panic Sz es : 32 <= Sz -> forall n, full_yield Sz n es <> None.
+Lemma full_collect_no_panic Sz es : 32 <= Sz -> forall acc, full_collect Sz es acc <> None.
 Proof.
-  intros HS. induction es as [|e es IH]; intros n; cbn [full_yield]; [discriminate|].
-  destruct (n =? 0); [discriminate|]. destruct (e_cancel e); [apply IH|].
+  intros HS. induction es as [|e es IH]; intros acc; cbn [full_collect]; [discriminate|].
+  destruct (MAX <=? len acc); [discriminate|]. destruct (e_cancel e); [apply IH|].
   pose proof (cid_read_no_panic Sz (e_block e) HS) as Hp.
-  destruct (cid_read_bytes Sz (e_block e)); [|apply IH|congruence].
-  specialize (IH (n - 1)). destruct (full_yield Sz (n - 1) es); [discriminate|congruence].
+  destruct (cid_read_bytes Sz (e_block e)); [apply IH|apply IH|congruence].
 Qed.
 
 Lemma upd_parse_no_panic Sz es : 32 <= Sz -> upd_parse Sz es <> None.
@@ -872,8 +864,8 @@ Qed.
 Lemma process_wantlist_no_panic Sz old w : 32 <= Sz -> process_wantlist Sz old w <> PwPanic.
 Proof.
   intros HS. unfold process_wantlist. destruct (w_full w).
-  - pose proof (full_yield_no_panic Sz (w_entries w) HS MAX) as H.
-    destruct (full_yield Sz MAX (w_entries w)); [discriminate|congruence].
+  - pose proof (full_collect_no_panic Sz (w_entries w) HS []) as H.
+    destruct (full_collect Sz (w_entries w) []); [discriminate|congruence].
   - pose proof (upd_parse_no_panic Sz (w_entries w) HS) as H.
     destruct (upd_parse Sz (w_entries w)) as [pes|]; [|congruence].
     destruct (upd_cancel _ old []) as [s1 removed]. destruct (upd_add _ s1 []) as [s2 added]. discriminate.
